@@ -1338,15 +1338,55 @@ let enc4 v =
   in
   b0 :: (b1 :: (b2 :: (b3 :: [])))
 
+(** val eNC2_LIMIT : z **)
+
+let eNC2_LIMIT =
+  Zpos (XO (XO (XO (XO (XO (XO (XO (XO (XO (XO (XO XH)))))))))))
+
+(** val eNC3_LIMIT : z **)
+
+let eNC3_LIMIT =
+  Zpos (XO (XO (XO (XO (XO (XO (XO (XO (XO (XO (XO (XO (XO (XO (XO (XO
+    XH))))))))))))))))
+
+(** val lATIN1_MAX : z **)
+
+let lATIN1_MAX =
+  Zpos (XI (XI (XI (XI (XI (XI (XI XH)))))))
+
+(** val pAD_LIMIT : z **)
+
+let pAD_LIMIT =
+  Zpos (XO (XI (XO (XI (XI (XI (XI XH)))))))
+
+(** val cHARS_SIZE : z **)
+
+let cHARS_SIZE =
+  Zpos (XO (XO (XO (XO (XO (XO (XO (XO XH))))))))
+
+(** val sURR_LO : z **)
+
+let sURR_LO =
+  Zpos (XO (XO (XO (XO (XO (XO (XO (XO (XO (XO (XO (XI (XI (XO (XI
+    XH)))))))))))))))
+
+(** val sURR_HI : z **)
+
+let sURR_HI =
+  Zpos (XI (XI (XI (XI (XI (XI (XI (XI (XI (XI (XI (XI (XI (XO (XI
+    XH)))))))))))))))
+
+(** val padded_consts : z list **)
+
+let padded_consts =
+  eNC2_LIMIT :: (eNC3_LIMIT :: (lATIN1_MAX :: (pAD_LIMIT :: (cHARS_SIZE :: (sURR_LO :: (sURR_HI :: []))))))
+
 (** val utf8_enc_c : z -> z list **)
 
 let utf8_enc_c v =
-  if Z.ltb v (Zpos (XO (XO (XO (XO (XO (XO (XO (XO (XO (XO (XO XH))))))))))))
+  if Z.ltb v eNC2_LIMIT
   then enc2 v
-  else if Z.ltb v (Zpos (XO (XO (XO (XO (XO (XO (XO (XO (XO (XO (XO (XO (XO
-            (XO (XO (XO XH)))))))))))))))))
-       then enc3 v
-       else enc4 v
+  else if Z.ltb v eNC3_LIMIT then enc3 v else enc4 v
 
 (** val is_cont : z -> bool **)
 
@@ -1477,22 +1517,12 @@ let rec utf8_decode = function
                                          else None)))
                            else None
 
-(** val cHARS_SIZE : z **)
-
-let cHARS_SIZE =
-  Zpos (XO (XO (XO (XO (XO (XO (XO (XO XH))))))))
-
 (** val from_ordinal_padded_b : z -> z -> z -> cres **)
 
 let from_ordinal_padded_b iv ulength pad =
   let plen = Z.sub ulength (Zpos XH) in
-  if (&&) (Z.leb plen (Zpos (XO (XI (XO (XI (XI (XI (XI XH)))))))))
-       ((||)
-         (Z.ltb iv (Zpos (XO (XO (XO (XO (XO (XO (XO (XO (XO (XO (XO (XI (XI
-           (XO (XI XH)))))))))))))))))
-         (Z.ltb (Zpos (XI (XI (XI (XI (XI (XI (XI (XI (XI (XI (XI (XI (XI (XO
-           (XI XH)))))))))))))))) iv))
-  then if Z.leb iv (Zpos (XI (XI (XI (XI (XI (XI (XI XH))))))))
+  if (&&) (Z.leb plen pAD_LIMIT) ((||) (Z.ltb iv sURR_LO) (Z.ltb sURR_HI iv))
+  then if Z.leb iv lATIN1_MAX
        then if (||) (Z.ltb plen Z0) (Z.ltb cHARS_SIZE ulength)
             then CBufferOverflow
             else CText
